@@ -6,6 +6,21 @@ Each entry: (lean name, file, regex, kind, [properties]).  kind is 'nat',
 import re
 
 
+def _three(good, bad, what):
+    """recogniser with three outcomes: the shape that has the property (True), the known shape that lacks it
+    (False), anything else: not recognised (the anchor counts as not found and the recorded value is used)"""
+    def f(m):
+        body = m.group(1)
+        if re.search(good, body):
+            return True
+        if re.search(bad, body):
+            return False
+        raise ValueError(what + ': shape not recognised')
+    return f
+
+
+
+
 def _num(s):
     s = s.replace('_', '')
     for suf in ('u8', 'u16', 'u32', 'u64', 'u128', 'usize'):
@@ -124,9 +139,9 @@ _RTR.append(('pduRouterKey', PDU, _pdu_const('RouterKey'), 'nat', ['C07', 'C06']
 _RTR.append(('pduAspa', PDU, _pdu_const('Aspa'), 'nat', ['C07', 'C06']))
 _RTR.append(('pduError', PDU, _pdu_const('Error'), 'nat', ['C07', 'C08', 'C06']))
 _RTR.append(('pduEndOfData', PDU, _pdu_const('EndOfData'), 'nat', ['C07', 'C06']))
-_RTR.append(('skipBufSize', PDU, r'pub async fn skip_payload<[\s\S]*?let mut buf = \[0u8; (\d+)\];', 'nat', ['C07']))
+_RTR.append(('skipBufSize', PDU, r'pub async fn skip_payload<[\s\S]*?let mut buf = \[0u8; ([\w:]+)\];', 'nat', ['C07']))
 _RTR.append(('skipEofChecked', PDU, r'pub async fn skip_payload<([\s\S]*?)\n    \}',
-             lambda m: bool(re.search(r'if read == 0', m.group(1))), ['C07']))
+             _three(r'\bread == 0\b|\b0 == read\b|\bread < 1\b', r'\.await\?;\s*remaining -= read;', 'skip_payload end-of-stream check'), ['C07']))
 
 
 SERVER = 'src/rtr/server.rs'
@@ -178,7 +193,7 @@ EXTRA = _RTR + [
     # ---- C03
     ('chainPostPassMergesOverlap', 'src/repository/resources/chain.rs',
      r'fn from_iter_unsorted<[\s\S]*?for j in 1\.\.res\.len\(\) \{([\s\S]*?)res\.truncate\(tail \+ 1\);',
-     lambda m: bool(re.search(r'res\[j\]\.min\(\) <= res\[tail\]\.max\(\)', m.group(1))), ['C03']),
+     _three(r'res\[j\]\.min\(\) <= res\[tail\]\.max\(\)', r'if Some\(res\[j\]\.min\(\)\) == tail_next \{\s*(?://[^\n]*\n\s*)*res\[tail\] = T::new', 'from_iter_unsorted merge pass'), ['C03']),
     ('asnCountSaturates', 'src/repository/resources/asres.rs',
      r'impl AsRange \{[\s\S]*?pub fn asn_count\(self\) -> u32 \{([\s\S]*?)\n    \}',
      lambda m: 'saturating' in m.group(1), ['C03', 'C04']),
@@ -251,7 +266,7 @@ EXTRA = _RTR + [
      r'(self\.customer_as\.encode\(\),\s*encode::sequence\(&self\.provider_as_set\.captured\))', lambda m: True, ['C05']),
     ('mftEncodeShape', 'src/repository/manifest.rs',
      r'(self\.manifest_number\.encode\(\),\s*self\.this_update\.encode_generalized_time\(\),\s*self\.next_update\.encode_generalized_time\(\),\s*self\.file_hash_alg\.encode_oid\(\),\s*encode::sequence\(\s*&self\.file_list\s*\))', lambda m: True, ['C05']),
-    ('aspaObjMaxLen', 'src/repository/aspa.rs', r'impl ProviderAsSet \{[\s\S]*?const MAX_LEN: usize = (\d+);', 'nat', ['C05', 'C02']),
+    ('aspaObjMaxLen', 'src/repository/aspa.rs', r'impl ProviderAsSet \{[\s\S]*?const MAX_LEN: usize = ([\w:]+);', 'nat', ['C05', 'C02']),
     # ---- C04
     ('roaIterUsesTake', 'src/repository/roa.rs',
      r'(impl Iterator for RoaIpAddressIter<\'_> \{[\s\S]*?RoaIpAddress::take_opt_from_unchecked\(cons\)[\s\S]*?fn skip_opt_in<[\s\S]*?let addr = match Self::take_opt_from_unchecked\(cons\)\? \{)', lambda m: True, ['C04']),
@@ -260,7 +275,7 @@ EXTRA = _RTR + [
     ('crlIterUsesTake', 'src/repository/crl.rs',
      r'(while CrlEntry::take_opt_from\(cons\)\?\.is_some\(\) \{ \}[\s\S]*?while let Some\(entry\) = CrlEntry::take_opt_from\(cons\)\.unwrap\(\))', lambda m: True, ['C04']),
     # ---- C14
-    ('mftExtLen', 'src/repository/manifest.rs', r'fn validate_file_name\(name: &\[u8\]\)[\s\S]*?if n\.len\(\) != (\d+) \|\| !n\.iter\(\)\.all\(\|c\| c\.is_ascii_alphabetic\(\)\)', 'nat', ['C14']),
+    ('mftExtLen', 'src/repository/manifest.rs', r'fn validate_file_name\(name: &\[u8\]\)[\s\S]*?if n\.len\(\) != ([\w:]+) \|\| !n\.iter\(\)\.all\(\|c\| c\.is_ascii_alphabetic\(\)\)', 'nat', ['C14']),
     ('mftNameCheckedBothSites', 'src/repository/manifest.rs',
      r'(fn skip_opt_in<[\s\S]*?)fn validate_file_name',
      lambda m: (len(re.findall(r'let file = Ia5String::take_from\(cons\)\?\.into_bytes\(\);\s*if let Err\(err\) = Self::validate_file_name\(&file\) \{\s*return Err\(cons\.content_err\(err\)\);', m.group(1))) == 2) or _raise('name check not at both sites'), ['C14']),
@@ -270,31 +285,31 @@ EXTRA = _RTR + [
     ('mftStemChars', 'src/repository/manifest.rs',
      r"fn valid_rfc9286_character\(c: u8\) -> bool \{\s*(c == b'-' \|\| c == b'_' \|\| c\.is_ascii_alphanumeric\(\))\s*\}", lambda m: True, ['C14']),
     # ---- C06
-    ('rtrInitialVersion', 'src/rtr/client.rs', r'const INITIAL_VERSION: u8 = (\d+);', 'nat', ['C06']),
+    ('rtrInitialVersion', 'src/rtr/client.rs', r'const INITIAL_VERSION: u8 = ([\w:]+);', 'nat', ['C06']),
     # ---- C08
-    ('rtrMaxVersion', SERVER, r'pub const MAX_VERSION: u8 = (\d+);', 'nat', ['C08', 'C06']),
+    ('rtrMaxVersion', SERVER, r'pub const MAX_VERSION: u8 = ([\w:]+);', 'nat', ['C08', 'C06']),
     ('rtrRecvCancelSafe', SERVER, r'async fn recv\(&mut self\) -> Result<Option<Query>, io::Error> \{([\s\S]*?)if let Err\(err\) = self\.check_version\(header\)', _cancel_safe, ['C08']),
     # ---- C15
     ('slurmDropAllKinds', SLURM, r'impl ValidationOutputFilters \{[\s\S]*?pub fn drop_payload\(&self, payload: &rtr::Payload\) -> bool \{([\s\S]*?)\n    \}', _drop_all, ['C15']),
-    ('aspaMaxCount', PDU, r'impl ProviderAsns \{[\s\S]*?pub const MAX_COUNT: usize = (\d+);', 'nat', ['C15', 'C07', 'C06']),
+    ('aspaMaxCount', PDU, r'impl ProviderAsns \{[\s\S]*?pub const MAX_COUNT: usize = ([\w:]+);', 'nat', ['C15', 'C07', 'C06']),
     # ---- C17
-    ('utcPivot', X509, r'Tag::UTC_TIME => \{[\s\S]*?let year = if year >= (\d+) \{ year \+ 1900 \}\s*else \{ year \+ 2000 \};', 'nat', ['C17', 'C01', 'C04']),
-    ('utcPivotOpt', X509, r'take_opt_primitive_if\(Tag::UTC_TIME, \|prim\| \{[\s\S]*?let year = if year >= (\d+) \{ year \+ 1900 \}\s*else \{ year \+ 2000 \};', 'nat', ['C17']),
-    ('utcYearMin', X509, r'pub fn encode_varied\(self\) -> impl encode::Values \{\s*if self\.year\(\) < (\d+) \|\| self\.year\(\) > \d+ \{', 'nat', ['C17']),
-    ('utcYearMax', X509, r'pub fn encode_varied\(self\) -> impl encode::Values \{\s*if self\.year\(\) < \d+ \|\| self\.year\(\) > (\d+) \{', 'nat', ['C17']),
+    ('utcPivot', X509, r'Tag::UTC_TIME => \{[\s\S]*?let year = if year >= ([\w:]+) \{ year \+ 1900 \}\s*else \{ year \+ 2000 \};', 'nat', ['C17', 'C01', 'C04']),
+    ('utcPivotOpt', X509, r'take_opt_primitive_if\(Tag::UTC_TIME, \|prim\| \{[\s\S]*?let year = if year >= ([\w:]+) \{ year \+ 1900 \}\s*else \{ year \+ 2000 \};', 'nat', ['C17']),
+    ('utcYearMin', X509, r'pub fn encode_varied\(self\) -> impl encode::Values \{\s*if self\.year\(\) < ([\w:]+) \|\| self\.year\(\) > \d+ \{', 'nat', ['C17']),
+    ('utcYearMax', X509, r'pub fn encode_varied\(self\) -> impl encode::Values \{\s*if self\.year\(\) < \d+ \|\| self\.year\(\) > ([\w:]+) \{', 'nat', ['C17']),
     ('timeDigitsOnly', X509, r'(fn read_two_char<[\s\S]*?)//------------ AsUtcTime', _digits_only, ['C17', 'C01', 'C04']),
     # ---- C12
     ('uriAsciiRanges', URI, r'fn is_u8_uri_ascii\(ch: u8\) -> bool \{\s*matches!\(\s*ch,\s*([^)]*?)\s*\)', _ascii_ranges, ['C12', 'C14', 'C01', 'C04']),
     ('rsyncModuleCaseInsensitive', URI, r'fn eq_module\(&self, other: &Rsync\) -> bool \{([\s\S]*?)\n    \}', _eq_module, ['C12']),
     ('httpsJoinSlashWhenEmpty', URI, r'impl Https \{[\s\S]*?pub fn join\(&self, path: &\[u8\]\) -> Result<Self, Error> \{([\s\S]*?)\n    \}', _https_join, ['C12']),
     # ---- C13
-    ('falV4Max', ADDR, r'pub fn new_v4\(len: u8\) -> Result<Self, PrefixError> \{\s*if len > (\d+) \{', 'nat', ['C13']),
-    ('falV6Max', ADDR, r'pub fn new_v6\(len: u8\) -> Result<Self, PrefixError> \{\s*match len\.cmp\(&(\d+)\)', 'nat', ['C13']),
-    ('falV6Full', ADDR, r'Ordering::Equal => Ok\(Self\((0x[0-9a-fA-F]+)\)\)', 'nat', ['C13']),
-    ('falXor', ADDR, r'Ordering::Less => Ok\(Self\(len \^ (0x[0-9a-fA-F]+)\)\)', 'nat', ['C13']),
+    ('falV4Max', ADDR, r'pub fn new_v4\(len: u8\) -> Result<Self, PrefixError> \{\s*if len > ([\w:]+) \{', 'nat', ['C13']),
+    ('falV6Max', ADDR, r'pub fn new_v6\(len: u8\) -> Result<Self, PrefixError> \{\s*match len\.cmp\(&([\w:]+)\)', 'nat', ['C13']),
+    ('falV6Full', ADDR, r'Ordering::Equal => Ok\(Self\(([\w:]+)\)\)', 'nat', ['C13']),
+    ('falXor', ADDR, r'Ordering::Less => Ok\(Self\(len \^ ([\w:]+)\)\)', 'nat', ['C13']),
     ('asnSetDedup', ASN,
      r'impl iter::FromIterator<Asn> for SmallAsnSet \{\s*fn from_iter<T: IntoIterator<Item = Asn>>\(iter: T\) -> Self \{([\s\S]*?)\n    \}',
-     lambda m: bool(re.search(r'res\.0\.sort(_unstable)?\(\);\s*res\.0\.dedup\(\);', m.group(1))), ['C13']),
+     _three(r'\.sort(_unstable)?\(\);[\s\S]*?\.dedup\(\);|BTreeSet', r'res\.0\.sort(_unstable)?\(\);\s*res\s*\n', 'SmallAsnSet::from_iter'), ['C13']),
 ]
 
 
